@@ -786,15 +786,24 @@ pub fn exec_act(sh: &Arc<Shared>, run: RunId, seq: u32, a: &Act, c: &mut Command
         }
         Act::EwRemove(n, r, part) => {
             let n = n % NT as u8;
-            let (inst, e) = {
+            let (inst, e, e2) = {
                 let st = lk(&sh.st);
-                (st.ew_inst[n as usize], st.ent(r))
+                (st.ew_inst[n as usize], st.ent(r), st.ent((r % NE as u8 + 1) % NE as u8))
             };
             let all = ew_trigs(n, 0);
-            let sel: Vec<Trig> = if part == 0 { all } else { vec![all[(part as usize - 1) % all.len()]] };
-            let items: Vec<(Trig, Entity)> = sel.iter().map(|t| (*t, e)).collect();
+            // part 0: whole bundle; 1..=2: a single trigger (partial removal); 3: the bundles of two entities at once
+            let mut items: Vec<(Trig, Entity)> = if part == 0 || part >= 3 {
+                all.iter().map(|t| (*t, e)).collect()
+            } else {
+                vec![(all[(part as usize - 1) % all.len()], e)]
+            };
+            let mut ents = vec![ebits(e)];
+            if part >= 3 && e2 != e {
+                items.extend(all.iter().map(|t| (*t, e2)));
+                ents.push(ebits(e2));
+            }
             let b = DynBundle::new(&items);
-            issued(sh, run, seq, cmd, RAct::EwRemove { ew: n, inst, ent: ebits(e), bundle: b.resolved() });
+            issued(sh, run, seq, cmd, RAct::EwRemove { ew: n, inst, ents, bundle: b.resolved() });
             q_pre(c, sh, cmd);
             c.queue(move |w: &mut World| do_ew_remove(w, n, b));
             q_post(c, sh, cmd);
